@@ -1092,7 +1092,10 @@ class Run:
                         c = self.cache()
                         stale = (sd is not None and (sd.added or sd.removed) and kind in ('m2m', 'symm') and c is not None
                                  and obj not in (c.modified_collections.get(w.relattr[key]) or ()))
-                        self_rd('coll-count', 'm2m:pending-items-kept-after-flush' if stale else ck, lambda: coll.count(), len(exp))
+                        # count() asks the database without flushing and corrects the answer by the pending changes this collection knows of
+                        dbbased = (sd is None or sd.count is None) and c is not None and bool(c.modified)
+                        ck2 = 'm2m:pending-items-kept-after-flush' if stale else ('unflushed-change-unknown-to-the-collection' if dbbased else ck)
+                        self_rd('coll-count', ck2, lambda: coll.count(), len(exp))
                     elif f == 'is_empty': self_rd('coll-is_empty', ck, lambda: coll.is_empty(), not exp)
                     elif f == 'bool': self_rd('coll-bool', ck, lambda: bool(coll), bool(exp))
                     elif f == 'select': self_rd('coll-select', ck, lambda: sorted(self.oid_of(x) for x in coll.select()[:]), exp, params=[obj])
